@@ -117,7 +117,9 @@ def tokenize(text: str, lex: Lexicon) -> list[tuple[str, str]]:
             if text.startswith(t, i):
                 j = i + len(t)
                 if _ALNUM.match(t[-1]) and j < n and _ALNUM.match(text[j]):
-                    continue
+                    # SymPy joins the differentials of a mixed derivative without a space: "d kd z^{2}"
+                    if not (text[j] == "d" and j + 1 < n and text[j + 1] in " \\"):
+                        continue
                 if _ALNUM.match(t[0]) and i > 0 and _ALNUM.match(text[i - 1]) and not after_d:
                     continue
                 matched = t
@@ -558,6 +560,14 @@ class Parser:
             self.expect("{")
             vs: list[tuple[str, int]] = []
             while not self.at("}"):
+                if self.peek()[0] == "tok" and self.peek()[1].startswith("d ") and self.peek()[1][2:] in self.lex.atoms_of:
+                    # "d Q" is also the rendering of the differential atom dQ: inside a derivative denominator it is d + Q
+                    var = self.take()[1][2:]
+                    n = 1
+                    if self.accept("^"):
+                        n = self._int(self.script_arg())
+                    vs.append((var, n))
+                    continue
                 if not self._dsym():
                     raise ParseError("no d in denominator")
                 var = self.atom_token()
